@@ -214,6 +214,8 @@ pub struct MObj {
     pub limbo: bool,
     /// Existed when a panic was caught: its count may legitimately stay too high (a leak)
     pub leaky: bool,
+    /// A Weak::upgrade issued while a destructor was on the stack returned a Cc to this object (during the current operation)
+    pub upgraded_in_dtor: bool,
     pub buffered: bool,
     pub side: usize,
     pub map_addr: usize,
@@ -242,6 +244,7 @@ impl MObj {
             drop_script: 0,
             limbo: false,
             leaky: false,
+            upgraded_in_dtor: false,
             buffered: false,
             side: 0,
             map_addr: 0,
@@ -716,6 +719,28 @@ pub fn alloc_observer(ev: hk::AllocEvent, addr: usize, size: usize, align: usize
     }
 }
 
+/// Walks the collector's buffer validating every address against the allocator before reading through it
+/// (a released allocation left in the buffer is reported instead of dereferenced).
+pub fn safe_buffer() -> Result<Vec<usize>, String> {
+    let mut out: Vec<usize> = Vec::new();
+    let mut addr = hk::buffer_first();
+    while addr != 0 {
+        match alloc::block(addr) {
+            Some(b) if !b.freed && b.kind == alloc::Kind::CcBox => {},
+            other => return Err(format!("the buffer contains {:#x} which is not a live managed allocation ({:?})", addr, other)),
+        }
+        if out.contains(&addr) {
+            return Err(format!("the buffer is cyclic or contains {:#x} twice", addr));
+        }
+        out.push(addr);
+        if out.len() > 64 {
+            return Err("the buffer holds more than 64 objects".to_string());
+        }
+        addr = unsafe { hk::snapshot_at(addr) }.next;
+    }
+    Ok(out)
+}
+
 /// Processes allocator events: must be called before any model mutation that follows a library call.
 fn drain_alloc() {
     let c = ctx();
@@ -1064,7 +1089,11 @@ fn cb_drop(node: &mut Node) {
         if in_box {
             let live = m.live();
             if live & (1 << id) != 0 {
+                let via_upgrade = o.upgraded_in_dtor;
                 drop(m);
+                if via_upgrade {
+                    v!("C08", "P-upg", "Weak::upgrade called from a destructor or cleaning action returned a Cc to object #{} whose destruction the collector then went on with", id);
+                }
                 v!("C01", "P-live", "object #{} dropped while reachable from program-held pointers", id);
                 neutralise(node);
                 return;
@@ -1351,7 +1380,12 @@ fn checked_upgrade(w: &Weak<Node>, target: WRef) -> Option<Cc<Node>> {
             if sc == 0 {
                 v!("C09", "P-wcnt", "Weak::strong_count() was 0 but upgrade() succeeded for object #{}", t);
             }
-            c.model.borrow_mut().objs[t].buffered = false;
+            let dctx = c.destructor_on_stack();
+            let mut m = c.model.borrow_mut();
+            m.objs[t].buffered = false;
+            if dctx {
+                m.objs[t].upgraded_in_dtor = true;
+            }
         },
         None => {
             c.stats.borrow_mut().upgrades_none += 1;
